@@ -28,6 +28,7 @@ pub fn run(id: &str) -> Result<String, String> {
         "F46" => f46_text_lazy_readers(),
         "F51" => f51(),
         "F59" => f59(),
+        "F64" => f64_crai(),
         _ => Err(format!("unknown witness {id}")),
     }
 }
@@ -780,4 +781,22 @@ fn f59() -> Result<String, String> {
     if noodles_fasta::fai::fs::write("/dev/full", &fai).is_ok() { bad.push("fai"); }
     if noodles_cram::crai::fs::write("/dev/full", &[]).is_ok() { bad.push("crai"); }
     if bad.is_empty() { Ok("\"cases\":6".into()) } else { Err(format!("fs::write(\"/dev/full\", &index) returns Ok(()) for: {}", bad.join(", "))) }
+}
+
+/// F64: a CRAI index with more than one record, written by noodles' own writer, must read back equal through crai::io::Reader::read_index
+/// (the free read_index appended every line to the same buffer, so the second record's fields were parsed out of two lines glued together).
+fn f64_crai() -> Result<String, String> {
+    use noodles_cram::crai;
+    let p = |n: usize| noodles_core::Position::new(n);
+    let mut cases = 0;
+    for n in [0usize, 1, 2, 3, 50] {
+        let index: Vec<crai::Record> = (0..n).map(|i| crai::Record::new(if i % 7 == 6 { None } else { Some(i / 3) }, if i % 7 == 6 { None } else { p(1 + i * 1000) }, if i % 7 == 6 { 0 } else { 500 + i }, 26 + (i as u64) * 4096, 100 + i as u64, 3000 + i as u64)).collect();
+        let mut w = crai::io::Writer::new(Vec::new());
+        w.write_index(&index).map_err(|e| format!("write_index: {e}"))?;
+        let data = w.finish().map_err(|e| format!("finish: {e}"))?;
+        let back = crai::io::Reader::new(&data[..]).read_index().map_err(|e| format!("crai::io::Reader::read_index fails on a {n}-record index written by crai::io::Writer: {e}"))?;
+        if back != index { return Err(format!("a {n}-record CRAI index reads back different: {} records, first difference at {:?}", back.len(), index.iter().zip(back.iter()).position(|(a, b)| a != b))); }
+        cases += 1;
+    }
+    Ok(format!("\"cases\":{cases}"))
 }
